@@ -65,6 +65,6 @@ theorem q5_start {c : Cfg α} (de : Bool) (k0 e0 : Nat) : Q5 (start c de k0 e0) 
     · simp
     · simp only [continueLoop_trace, continueLoop_destStIno]; exact b.stIno
     · simp only [continueLoop_fs]; exact b.name0
-  · exact b
+  · exact ⟨b.guarded, b.atUnlink, b.stIno, b.name0⟩
 
 end XzVerif.XzIo
